@@ -724,6 +724,23 @@ func (e *SpecEnv) pureCall(pkgPath, name string, args []ast.Expr) Value {
 			// ghost (uninterpreted) function
 			ts := make([]*Term, len(args))
 			for i, a := range args {
+				// `mem`: the memory of 64-bit words the function may depend on - the heap of the OLD state of the
+				// clause (the state before the call for a callee's postcondition, the entry state for the
+				// function's own), the current one where there is no old state.  A slice argument stands for
+				// its address.  This is how a trusted leaf NAMES its output as a function of its input
+				// (`p2[k] == inttval(mem, p1, q, k)`) without saying what the function is.
+				if id, ok := a.(*ast.Ident); ok && id.Name == "mem" {
+					hs := e.st
+					if e.oldSt != nil {
+						hs = e.oldSt
+					}
+					ts[i] = e.c.heap(hs, "H.uint64")
+					continue
+				}
+				if sv, ok := e.Eval(a).(SliceV); ok {
+					ts[i] = sv.Addr
+					continue
+				}
 				ts[i] = e.Int(a)
 			}
 			if sf.Bool {
